@@ -1,1 +1,8 @@
+pub mod c01;
 pub mod c02;
+
+use crate::report::Report;
+
+/// Merge component-level (E1) results from the /verif/comp library into a report.
+/// (Wired in once that crate is integrated.)
+pub fn merge_comp(_rep: &mut Report, _property: &str, _thorough: bool, _deadline: std::time::Instant) {}
